@@ -18,6 +18,8 @@ pub struct Item {
     pub sig: String,
     /// body text (fn body, const initialiser, struct fields, impl body)
     pub body: String,
+    /// for members of an inherent impl: the self type of that impl ("E", "EIter", …); empty otherwise
+    pub owner: String,
 }
 
 fn ts_string(v: &[TokenTree]) -> String {
@@ -62,7 +64,7 @@ fn take_vis(v: &[TokenTree], i: usize) -> (String, usize) {
     (String::new(), i)
 }
 
-fn split_members(ts: TokenStream) -> Result<Vec<Item>, String> {
+fn split_members(ts: TokenStream, owner: &str) -> Result<Vec<Item>, String> {
     let v: Vec<TokenTree> = ts.into_iter().collect();
     let mut out = Vec::new();
     let mut i = 0;
@@ -113,6 +115,7 @@ fn split_members(ts: TokenStream) -> Result<Vec<Item>, String> {
                 vis,
                 sig: ts_string(&v[i..eq]),
                 body: ts_string(&v[eq + 1..semi]),
+                owner: owner.to_string(),
             });
             i = semi + 1;
         } else if is_ident(&v[i], "fn") || (is_ident(&v[i], "const") && i + 1 < v.len() && is_ident(&v[i + 1], "fn")) {
@@ -141,6 +144,7 @@ fn split_members(ts: TokenStream) -> Result<Vec<Item>, String> {
                 vis,
                 sig: ts_string(&v[i..b]),
                 body: v[b].to_string(),
+                owner: owner.to_string(),
             });
             i = b + 1;
         } else {
@@ -186,12 +190,21 @@ fn split_into(ts: TokenStream, out: &mut Vec<Item>) -> Result<(), String> {
             let b = body_at.ok_or("top level: impl without body")?;
             let header = ts_string(&v[i..b]);
             if !has_for {
-                out.push(Item { kind: "inherent".into(), name: header.clone(), vis: String::new(), sig: header, body: String::new() });
+                // self type = the tokens after `impl` up to `where` (the derive emits no generics on inherent impls)
+                let mut owner_toks: Vec<TokenTree> = Vec::new();
+                for t in &v[i + 1..b] {
+                    if is_ident(t, "where") {
+                        break;
+                    }
+                    owner_toks.push(t.clone());
+                }
+                let owner = ts_string(&owner_toks);
+                out.push(Item { kind: "inherent".into(), name: header.clone(), vis: String::new(), sig: header, body: String::new(), owner: owner.clone() });
                 if let TokenTree::Group(g) = &v[b] {
-                    out.extend(split_members(g.stream())?);
+                    out.extend(split_members(g.stream(), &owner)?);
                 }
             } else {
-                out.push(Item { kind: "impl".into(), name: header.clone(), vis: String::new(), sig: header, body: v[b].to_string() });
+                out.push(Item { kind: "impl".into(), name: header.clone(), vis: String::new(), sig: header, body: v[b].to_string(), owner: String::new() });
             }
             i = b + 1;
         } else if is_ident(&v[i], "struct") {
@@ -203,7 +216,7 @@ fn split_into(ts: TokenStream, out: &mut Vec<Item>) -> Result<(), String> {
                 Some(TokenTree::Group(g)) if g.delimiter() == Delimiter::Brace => i + 2,
                 other => return Err(format!("top level struct {name}: expected fields, found {other:?}")),
             };
-            out.push(Item { kind: "struct".into(), name: name.clone(), vis, sig: format!("struct {name}"), body: v[b].to_string() });
+            out.push(Item { kind: "struct".into(), name: name.clone(), vis, sig: format!("struct {name}"), body: v[b].to_string(), owner: String::new() });
             i = b + 1;
         } else if is_ident(&v[i], "use") {
             // `use path;` — recorded (C16 cares about names brought into the user's module)
@@ -214,7 +227,7 @@ fn split_into(ts: TokenStream, out: &mut Vec<Item>) -> Result<(), String> {
             if k >= v.len() {
                 return Err("top level: `use` without `;`".into());
             }
-            out.push(Item { kind: "use".into(), name: ts_string(&v[i + 1..k]), vis, sig: ts_string(&v[i..k]), body: String::new() });
+            out.push(Item { kind: "use".into(), name: ts_string(&v[i + 1..k]), vis, sig: ts_string(&v[i..k]), body: String::new(), owner: String::new() });
             i = k + 1;
         } else if is_ident(&v[i], "const") && matches!(v.get(i + 1), Some(TokenTree::Ident(id)) if id == "_") {
             // `const _: () = { items };` — an anonymous scope holding further items
